@@ -93,6 +93,12 @@ def tm_oracle(kind: str, args: list[str], lines: list[str], blocks: list[list[st
                     active = [x for x in running if x not in cancel_req and x not in expect_cancel]
                     if kind == 'limpar' and len(active) > limit:
                         v.append(('C12', f'op {gi}: {len(active)} active coroutines exceed the limit {limit}: {active}'))
+                    # the policy cancels its victim before the new coroutine starts: the CancelledError reaches the
+                    # victim first, so more than `limit` bodies are never live
+                    late = [x for x in running if x != c and x in expect_cancel]
+                    if kind == 'limpar' and late and len(running) > limit:
+                        v.append(('C12', f'op {gi}: coroutine {c} started while the victim(s) {late} of the policy were still '
+                                         f'running ({len(running)} live bodies, limit {limit})'))
             elif t[0] in ('exit', 'failed', 'cancelled'):
                 c = int(t[1])
                 if c in running:
